@@ -6,6 +6,7 @@
   these theorems are re-checked against what the code says now.
 -/
 import OQuPyVerif.Generated.StepCount
+import OQuPyVerif.Generated.DynamicsAdd
 import OQuPyVerif.Lemmas.TimeGrid
 import OQuPyVerif.Lemmas.FloatGrid
 import OQuPyVerif.Lemmas.MfDynamics
@@ -271,5 +272,53 @@ theorem cd_num_steps_too_long (n m : Int) (h : m < n) :
 /-- non-vacuity: zero steps, given explicitly, next to a 4-step process tensor -/
 example : cd_resolve_num_steps (some 0) (some 4) = .ok 0 := by decide
 example : (3 : Int) + tebd_compute_steps 0 3 5 = 5 ∧ (5 : Int) + tebd_compute_steps 0 5 5 = 5 := by decide
+
+/-! ### Reading times / states between adds (regenerated getter kinds) -/
+section Views
+open OQuPyVerif.Generated.DynamicsAdd
+
+/-- with getters that build their array from the live lists, every read in any history of adds
+    and reads returns the lists of the dynamics as it is at that moment -/
+theorem live_reads_current {σ} (v : DynView σ) (ops : List (ViewOp σ)) :
+    ∀ r ∈ DynView.run .live .live v ops,
+      r.1 = .inl r.2.times ∨ r.1 = .inr r.2.states := by
+  induction ops generalizing v with
+  | nil => intro r hr; simp [DynView.run] at hr
+  | cons op ops ih =>
+    intro r hr
+    cases op with
+    | add t x =>
+      simp only [DynView.run, DynView.step] at hr
+      exact ih _ r hr
+    | readTimes =>
+      simp only [DynView.run, DynView.step, List.mem_cons] at hr
+      rcases hr with h | h
+      · left; rw [h]
+      · exact ih _ r h
+    | readStates =>
+      simp only [DynView.run, DynView.step, List.mem_cons] at hr
+      rcases hr with h | h
+      · right; rw [h]
+      · exact ih _ r h
+
+/-- … which is how `Dynamics.times`, `Dynamics.states`, `MeanFieldDynamics.times` and
+    `MeanFieldDynamics.fields` are written: times and states handed out after a continued
+    computation are those of the whole history, aligned. -/
+theorem dynamics_views_current {σ} (v : DynView σ) (ops : List (ViewOp σ)) :
+    (∀ r ∈ DynView.run dynamics_times_read dynamics_states_read v ops,
+      r.1 = .inl r.2.times ∨ r.1 = .inr r.2.states) ∧
+    mfd_times_read = .live ∧ mfd_fields_read = .live := by
+  refine ⟨?_, by decide, by decide⟩
+  have h1 : dynamics_times_read = .live := by decide
+  have h2 : dynamics_states_read = .live := by decide
+  rw [h1, h2]
+  exact live_reads_current v ops
+
+/-- why it matters: a build-once getter hands out the OLD states after a later add -/
+example : (DynView.run .live .memo (DynView.empty : DynView Int)
+    [.add 0 10, .readStates, .add 1 11, .readStates]).map (·.1)
+      = [.inr [10], .inr [10]] := by decide
+
+end Views
 
 end OQuPyVerif.Props.C13
